@@ -470,7 +470,8 @@ struct message_t
 };
 
 void scan_deps(const std::string& orig_portname, std::string cur_portname,
-               const Ports& ports, const std::map<std::string, message_t*>& message_map, const std::vector<message_t>& message_v)
+               const Ports& ports, const std::map<std::string, message_t*>& message_map, const std::vector<message_t>& message_v,
+               const std::string& scanned_above = std::string())
 {
     auto rel2abs=[](const char* relative_path, const std::string& base) -> std::string
     {
@@ -490,6 +491,9 @@ void scan_deps(const std::string& orig_portname, std::string cur_portname,
         cur_portname.size() && (last_slash = cur_portname.find_last_of('/')) != std::string::npos;
           cur_portname.resize(last_slash))
     {
+        // this level and everything above it is being scanned by our caller
+        if(!scanned_above.empty() && cur_portname == scanned_above)
+            break;
         const Port* port = ports.apropos(cur_portname.c_str());
         if(port)
         {
@@ -514,7 +518,13 @@ void scan_deps(const std::string& orig_portname, std::string cur_portname,
                     {
                         //printf("dependencies: %s depends on port %s which has no message\n", orig_portname.c_str(), enabled_by);
                         // port is not in the savefile => scan transitive deps
-                        scan_deps(orig_portname, abs, ports, message_map, message_v);
+                        // (an enabling port may lie inside the subtree which it
+                        //  enables: do not walk up into this level again)
+                        const bool below = abs.size() > cur_portname.size() &&
+                            !abs.compare(0, cur_portname.size(), cur_portname) &&
+                            abs[cur_portname.size()] == '/';
+                        scan_deps(orig_portname, abs, ports, message_map, message_v,
+                                  below ? cur_portname : std::string());
                     }
                 }
             }
